@@ -213,6 +213,27 @@ def run(ctx: core.Check):
         tr.begin({"tag": what})
         tr.ev("Tag", what=what, tag=tag)
         ctx.count("evaluations")
+        # the other direction: the same content under other tag numbers and head widths must be refused, the registered number is
+        # accepted in every well-formed head width (numbers whose leading byte equals the registered tag included)
+        if tag < 0:
+            continue
+        content = it.val.raw
+        T = {"envelope": 107, "sign1": 18, "encrypt": 96}[what]
+        for num in (T, T + 1, T - 1, T << 8, (T << 8) | 0x12, (T << 8) | 0xFF, T << 16, T << 24, (T << 24) | 1, T << 56, 55799, 107, 18, 96, 0, 23, 24):
+            for width in (0, 1, 2, 4, 8):
+                if num >= 1 << (8 * width) and not (width == 0 and num < 24):
+                    continue
+                if width == 0 and num >= 24:
+                    continue
+                head = bytes([0xC0 | num]) if width == 0 else bytes([0xC0 | {1: 24, 2: 25, 4: 26, 8: 27}[width]]) + num.to_bytes(width, "big")
+                try:
+                    cls.from_cbor(head + content).to_obj()
+                    acc = True
+                except Exception:
+                    acc = False
+                tr.begin({"parse-tag": what, "number": num, "width": width})
+                tr.ev("ParseTag", what=what, tag=num if num < 2 ** 31 else -2, accepted=acc)
+                ctx.count("evaluations")
     ctx.cov["encode_cases"], ctx.cov["cross_cases"] = n_enc, n_cross
     ctx.cov["exhaustive"] = True
     toolrun.report(ctx, tr, module="Registry_Trace", label="registry", cap=20, keyfn=lambda b, s: f"{b['clause']}:{json.dumps(s)}")
